@@ -3,6 +3,7 @@ package main
 import (
 	"fmt"
 	"math"
+	"net"
 	"time"
 
 	"verifharness/hx"
@@ -179,6 +180,9 @@ func runAccept(c *ctx) error {
 	s.Tick(4033 + 400) // every slot up to the end of the window is acceptable now
 	a.menu(0, false)
 	gate.Release()
+	// bursts on the real UDP socket: an authentic report immediately followed by forged copies that
+	// carry its signature over other fields; every datagram is handled by its own goroutine
+	a.bursts(2016-2016, heavy)
 	// D: after the rotation
 	if !s.waitOffset(2016) {
 		return fmt.Errorf("rotation did not happen")
@@ -243,4 +247,53 @@ func (s *scn) waitOffset(off uint32) bool {
 		time.Sleep(30 * time.Millisecond)
 	}
 	return false
+}
+
+// bursts sends, without waiting in between, a valid report and then forged datagrams reusing its
+// signature; it then waits for the handlers of everything the socket delivered.
+func (a *acceptRun) bursts(off uint32, heavy bool) {
+	_, _, up := a.Srv.Ports()
+	conn, err := net.Dial("udp", fmt.Sprintf("127.0.0.1:%d", up))
+	if err != nil {
+		return
+	}
+	defer conn.Close()
+	rounds := 60
+	if heavy {
+		rounds = 400
+	}
+	now := a.Now()
+	for r := 0; r < rounds; r++ {
+		ts := uint32(int64(now) - 300 + int64(r%250))
+		id, v := uint32(1), uint64(1000+r)
+		valid := a.ReportBytes(id, ts, v, "d1", 0)
+		var sig [64]byte
+		copy(sig[:], valid[16:])
+		before := a.T.Counts["RecvReport"]
+		conn.Write(valid)
+		// a short, varying pause: the forged copies should arrive while the first one is being verified
+		for spin := 0; spin < (r%30)*400; spin++ {
+			_ = spin
+		}
+		n := 1
+		for k := 0; k < 9; k++ {
+			forged := hx.RefReportBytes(id, ts+1+uint32(k), v+7, sig)
+			if _, err := conn.Write(forged); err == nil {
+				n++
+			}
+		}
+		// wait for the handlers of what arrived (datagrams may be dropped by the socket: no failure)
+		deadline := time.Now().Add(300 * time.Millisecond)
+		for time.Now().Before(deadline) {
+			a.T.Lock()
+			got := a.T.Counts["RecvReport"] - before
+			a.T.Unlock()
+			if got >= n {
+				break
+			}
+			time.Sleep(200 * time.Microsecond)
+		}
+		a.n += n
+	}
+	time.Sleep(50 * time.Millisecond)
 }
